@@ -38,7 +38,11 @@ func snapshot(s *metrics.Store, order []*metrics.Metric, t0 time.Time) []mSnap {
 		m.RLock()
 		for _, lv := range m.LabelValues {
 			ts := lv.Value.TimeUTC().UnixNano()
-			ms.LVs = append(ms.LVs, lvSnap{lv, append([]string{}, lv.Labels...), datum.GetInt(lv.Value), t0.Sub(time.Unix(0, ts)).Hours(), ts, lv.Expiry})
+			var iv int64
+			if m.Type == metrics.Int {
+				iv = datum.GetInt(lv.Value)
+			}
+			ms.LVs = append(ms.LVs, lvSnap{lv, append([]string{}, lv.Labels...), iv, t0.Sub(time.Unix(0, ts)).Hours(), ts, lv.Expiry})
 		}
 		m.RUnlock()
 		out = append(out, ms)
@@ -195,6 +199,11 @@ func TestC10(t *testing.T) {
 		var limits []int
 		for i := 0; i < nm; i++ {
 			m := metrics.NewMetric(fmt.Sprintf("m%d", i), "prog", metrics.Gauge, metrics.Int, "k")
+			if i == 1 {
+				// a text metric whose data are re-set to the SAME text at new
+				// instants: the last update decides, not the last change
+				m = metrics.NewMetric(fmt.Sprintf("m%d", i), "prog", metrics.Text, metrics.String, "k")
+			}
 			if g.Intn(3) > 0 {
 				m.Limit = g.Range(1, 6)
 			}
@@ -208,6 +217,29 @@ func TestC10(t *testing.T) {
 			ms = append(ms, m)
 		}
 		var steps []step
+		// GC decides on the instant of a datum's last UPDATE: what the datum
+		// reports as its time must be the instant of the last set, also when
+		// the set did not change the value
+		lastSet := map[string]time.Time{}
+		stampsOK := func() string {
+			for key, want := range lastSet {
+				var mi int
+				var lab string
+				fmt.Sscanf(key, "%d/%s", &mi, &lab)
+				m := ms[mi]
+				m.RLock()
+				lv := m.FindLabelValueOrNil([]string{lab})
+				var got time.Time
+				if lv != nil {
+					got = lv.Value.TimeUTC()
+				}
+				m.RUnlock()
+				if lv != nil && !got.Equal(want) {
+					return fmt.Sprintf("datum m%d[%s] was last set at %v but reports %v as its time (GC would judge it by that)", mi, lab, want.UTC(), got)
+				}
+			}
+			return ""
+		}
 		mutateStore := func(nsteps int) {
 			for i := 0; i < nsteps; i++ {
 				mi := g.Intn(nm)
@@ -219,7 +251,12 @@ func TestC10(t *testing.T) {
 					st.Op = "set"
 					st.AgeIdx = g.Intn(len(agesH))
 					d, _ := m.GetDatum(lab)
-					datum.SetInt(d, int64(i+1), ago(t0, agesH[st.AgeIdx]))
+					if m.Type == metrics.String {
+						datum.SetString(d, "same text", ago(t0, agesH[st.AgeIdx]))
+					} else {
+						datum.SetInt(d, int64(i+1), ago(t0, agesH[st.AgeIdx]))
+					}
+					lastSet[fmt.Sprintf("%d/%s", mi, lab)] = ago(t0, agesH[st.AgeIdx])
 				case k < 9:
 					st.Op = "expire"
 					e := ev.PickOne(g, expiries)
@@ -228,11 +265,16 @@ func TestC10(t *testing.T) {
 				default:
 					st.Op = "remove"
 					_ = m.RemoveDatum(lab)
+					delete(lastSet, fmt.Sprintf("%d/%s", mi, lab))
 				}
 				steps = append(steps, st)
 			}
 		}
 		mutateStore(g.Range(0, 12*nm))
+		if w := stampsOK(); w != "" {
+			r.Violation("datum-time-is-not-last-update", witness{steps, limits, nil, nil, w, 0})
+			return
+		}
 		before := snapshot(s, ms, t0)
 		cur := before
 		// pass 1: GC of the built store; pass 2: GC again (must be a no-op);
